@@ -358,6 +358,10 @@ func (hs *serverHandshakeState) pickCipherSuite() error {
 }
 
 func (hs *serverHandshakeState) cipherSuiteOk(c *cipherSuite) bool {
+	if c.flags&suiteDSS != 0 {
+		// DSA server certificates are not supported.
+		return false
+	}
 	if c.flags&suiteECDHE != 0 {
 		if !hs.ecdheOk {
 			return false
